@@ -7,6 +7,10 @@
 //! (b) ItemVariationStore::compute_delta / compute_float_delta == sum of spec
 //!     tent scalar x delta; DeltaSetIndexMap lookups;
 //! (c) fvar/avar normalisation (read-fonts and skrifa) against exact rationals;
+//!     (c') histories of 2-4 calls that reuse ONE output buffer (subsets of the
+//!     axes, duplicate / unknown tags, empty settings, short / long buffers,
+//!     Location / LocationRef / NamedInstance / filter paths): only the LAST
+//!     call's settings may show, an axis without a setting is 0;
 //! (d) skrifa GlyphMetrics advance / lsb == hmtx + integer HVAR (or gvar
 //!     phantom point) delta.
 use serde_json::json;
@@ -14,6 +18,7 @@ use vf_core::{Args, Ctx, PanicPolicy, Rng};
 
 pub mod gvmodel;
 pub mod model;
+pub mod wl_hist;
 pub mod wl_metrics;
 pub mod wl_norm;
 pub mod wl_store;
@@ -23,7 +28,7 @@ pub const REPLAY: Option<fn(&mut Ctx, &Args, &serde_json::Value, Option<&[u8]>)>
 pub fn run(ctx: &mut Ctx, _args: &Args) {
     ctx.policy = PanicPolicy::Any;
     ctx.rule = "distinct cases (digest of the input; the per-location / per-value kinds keep every 16th resp. 32nd digest, full counts are in events.delta_locations_with_partial_scalar, norm_values_strictly_inside_regular_axis, metrics_nonzero_delta_with_partial_scalar) where: a store case has >= 2 distinct delta sets and the builder merged duplicates, split into several subtables, pruned regions or mixed word sizes; \
-                or a (row, location) has a non-zero exact delta with a partially active region; or a user coordinate lies strictly inside a regular axis (not at min/default/max); \
+                or a (row, location) has a non-zero exact delta with a partially active region; or a user coordinate lies strictly inside a regular axis (not at min/default/max); or a history of normalisation calls on one reused buffer in which a later call omits an axis that an earlier call had moved off its default; \
                 or a (glyph, location) has a non-zero metric delta with a partially active region; or a DeltaSetIndexMap has > 1 entry"
         .into();
     ctx.assumptions = vec![
@@ -32,6 +37,7 @@ pub fn run(ctx: &mut Ctx, _args: &Args) {
         "compute_float_delta: f32 scalars, tolerance 16 ulp(f32) * sum|delta|".into(),
         "rows with sum|delta| > 1e9 are not evaluated through compute_delta (i32 result range)".into(),
         "normalisation: each stage may round to the nearest 16.16 value either way on ties (spec leaves the rounding open); 16.16 -> 2.14 as the spec prescribes ((x + 2) >> 2)".into(),
+        "histories: an axis without a setting in the LAST call must be exactly 0, entries beyond the axis count exactly 0, a repeated tag takes the last value, unknown tags are ignored (the doc comments of Fvar::user_to_normalized / AxisCollection::location_to_slice); a setting applies to every axis carrying its tag".into(),
         "axes satisfy min <= default <= max and spans < 32768 (the span-overflow probe is separate); segment maps valid: contain -1/0/+1, `from` strictly increasing, `to` non-decreasing".into(),
         "metrics: advance/lsb must equal base + integer within 0.5 + eps of the exact delta (the library rounds the summed delta to nearest)".into(),
     ];
@@ -93,6 +99,17 @@ pub fn run(ctx: &mut Ctx, _args: &Args) {
         }
         let mut rng = Rng::derive(ctx.seed, "c11-norm", i as u64);
         wl_norm::check_axes_case(ctx, &mut rng, i as u64);
+    }
+
+    // (c') histories: one caller-owned buffer reused across several calls
+    let n = ctx.tier.pick(120_000usize, 2_000_000);
+    for i in 0..n {
+        item += 1;
+        if !ctx.mine(item) {
+            continue;
+        }
+        let mut rng = Rng::derive(ctx.seed, "c11-norm-history", i as u64);
+        wl_hist::check_history_case(ctx, &mut rng, i as u64);
     }
 
     // (d) built fonts
